@@ -97,6 +97,9 @@ def rnd_table(rnd, iface_mode, first=False, addrs=(L_ADDR, R_ADDR)):
     elif iface_mode == "subif":
         L["f"].append(kv("subif", 7))
         R["f"].append(kv("subif", 7))
+    elif iface_mode == "lagsub":            # a sub-interface ON the LAG (both asked for together)
+        L["f"] += [kv("lag", 1), kv("subif", 7)]
+        R["f"] += [kv("lag", 2), kv("subif", 9)]
     return {"L": L, "R": R, "S": S}
 
 
@@ -355,7 +358,7 @@ def run(ctx):
     ncase = 500 if quick else 12000
     for k in range(ncase):
         nlinks = rnd.choice([1, 1, 2, 3])
-        mode = rnd.choice(["port", "port", "lag", "svi", "subif"]) if nlinks == 1 else rnd.choice(["lag", "svi", "lag", "subif", "port"])
+        mode = rnd.choice(["port", "port", "lag", "svi", "subif", "lagsub"]) if nlinks == 1 else rnd.choice(["lag", "svi", "lag", "subif", "port", "lagsub"])
         kind = rnd.choice(["direct", "direct", "indirect"])
         if kind == "indirect":
             mode = "none"
@@ -423,7 +426,7 @@ def run(ctx):
             runs.append(one)
         want_if = ("", "")
         if kind == "direct":
-            want_if = {"port": ("if0", "eth0"), "lag": ("Trunk1", "Trunk2"), "svi": ("Vlan100", "Vlan200"), "subif": ("if0.7", "eth0.7")}[mode]
+            want_if = {"port": ("if0", "eth0"), "lag": ("Trunk1", "Trunk2"), "svi": ("Vlan100", "Vlan200"), "subif": ("if0.7", "eth0.7"), "lagsub": ("Trunk1.7", "Trunk2.9")}[mode]
         judged = [resolve(h) for h in hs] + [swap_lr(resolve(h, 2, 1)) for h in hs21]      # both applications, written from a1's side
         rec = {"id": "pair-%d" % len(recs), "kind": "pair", "hs": judged, "hs_src": hs + hs21, "ipL": ipl, "ipR": ipr, "runs": runs,
                "ifaceA": want_if[0], "ifaceB": want_if[1], "ambiguous": kind == "direct" and nlinks > 1 and mode in ("port", "subif"), "meta": {"links": nlinks, "mode": mode, "rule": kind, "symmetric_templates": sym, "addresses": [la, ra]}}
